@@ -109,6 +109,10 @@ var c11Model = porcupine.Model{
 			}
 		case "mkdir":
 			want.Err = m.Mkdir(op.Path, op.Perm) != ""
+		case "mkdirall":
+			want.Err = m.MkdirAll(op.Path, op.Perm) != ""
+		case "removeall":
+			want.Err = m.RemoveAll(op.Path) != ""
 		case "remove":
 			want.Err = m.Remove(op.Path) != ""
 		case "rename":
@@ -219,6 +223,10 @@ func c11Exec(fsys *world.World, client int, op c11Op, clock *int64, rec func(c11
 		})
 	case "mkdir":
 		do("mkdir", func() c11Out { return c11Out{Err: f.Mkdir(op.Path, os.FileMode(op.Perm)) != nil} })
+	case "mkdirall":
+		do("mkdirall", func() c11Out { return c11Out{Err: f.MkdirAll(op.Path, os.FileMode(op.Perm)) != nil} })
+	case "removeall":
+		do("removeall", func() c11Out { return c11Out{Err: f.RemoveAll(op.Path) != nil} })
 	case "remove":
 		do("remove", func() c11Out { return c11Out{Err: f.Remove(op.Path) != nil} })
 	case "rename":
@@ -414,7 +422,7 @@ func TestC11(t *testing.T) {
 	rapid.Check(t, func(t *rapid.T) {
 		cfg := hist.DrawCfg(t, 70, []int{1, 3, 20})
 		nclients := rapid.IntRange(2, 8).Draw(t, "clients")
-		c := c11Case{Procs: rapid.SampledFrom([]int{2, 16}).Draw(t, "gomaxprocs"), Rebuilt: rapid.IntRange(0, 2).Draw(t, "rebuilt") == 0}
+		c := c11Case{Procs: rapid.SampledFrom([]int{2, 16}).Draw(t, "gomaxprocs"), Rebuilt: rapid.IntRange(0, 1).Draw(t, "rebuilt") == 0}
 		shared := []string{"/s", "/s/d1", "/s/d2"}
 		c.Setup = []c11Op{{Kind: "mkdir", Path: "/s", Perm: 0755}, {Kind: "put", Path: "/s/base", Size: 700, Seed: 99}}
 		if rapid.Bool().Draw(t, "presetup") {
@@ -432,13 +440,19 @@ func TestC11(t *testing.T) {
 			var prog []c11Op
 			n := rapid.IntRange(1, 4).Draw(t, "len")
 			for k := 0; k < n; k++ {
-				kind := rapid.SampledFrom([]string{"put", "put", "get", "mkdir", "remove", "rename", "chmod", "chown", "chtimes", "stat", "list", "get", "list"}).Draw(t, "kind")
+				kind := rapid.SampledFrom([]string{"put", "put", "get", "mkdir", "remove", "rename", "chmod", "chown", "chtimes", "stat", "list", "get", "list", "mkdirall", "mkdirall", "removeall"}).Draw(t, "kind")
 				op := c11Op{Kind: kind}
 				switch kind {
 				case "put":
 					op.Path = rapid.SampledFrom(own[:2]).Draw(t, "ownfile")
 					op.Size = rapid.SampledFrom([]int{0, 1, 30, 600, 2000}).Draw(t, "size")
 					op.Seed = uint64(i*10 + k + 1)
+				case "mkdirall":
+					// shared multi-level paths (several clients race for the same missing prefix) and own subtrees
+					op.Path = rapid.SampledFrom([]string{"/s/m/x/y", "/s/m/x", "/s/m/z/w", "/s/d2/k", own[2] + "/k/l"}).Draw(t, "deep")
+					op.Perm = 0755
+				case "removeall":
+					op.Path = own[2]
 				case "remove":
 					op.Path = rapid.SampledFrom(own).Draw(t, "own")
 				case "rename":
